@@ -1362,12 +1362,16 @@ int ov_raw_seek(OggVorbis_File *vf,ogg_int64_t pos){
             if(op.granulepos!=-1){
               int i,link=vf->current_link;
               ogg_int64_t granulepos=op.granulepos-vf->pcmlengths[link*2];
+
+              /* back up to the first packet scanned, and clamp at
+                 the start of this link (not of the whole file)
+                 before the earlier links' lengths are added */
+              granulepos-=accblock;
               if(granulepos<0)granulepos=0;
 
               for(i=0;i<link;i++)
                 granulepos+=vf->pcmlengths[i*2+1];
-              vf->pcm_offset=granulepos-accblock;
-              if(vf->pcm_offset<0)vf->pcm_offset=0;
+              vf->pcm_offset=granulepos;
               break;
             }
             lastblock=thisblock;
